@@ -14,6 +14,8 @@ WEIGHTS = {"transfer": 7, "pull": 1, "search": 1, "decide": 1, "check": 1, "op":
 def judge_pull(d, copies_before, req_before):
     """oracle from the property text for one real pull step"""
     probs = []
+    if d.get("raised"):
+        probs.append(f"the pull task raised {d['raised']} (an uncaught exception in a task aborts the daemon)")
     newly_completed = d["completed"] and not req_before[0]
     dest_state_before = copies_before.get((d["file"], d["dest"]), "N")
     if newly_completed:
